@@ -91,64 +91,67 @@ Definition apply_step (vf va : val) (s : state) : sres :=
   | _ => SStuck "application of a non-function"
   end.
 
-Fixpoint step1 (e : expr) (s : state) : sres :=
+(* the step function, over the function that performs an application of two values *)
+Fixpoint step1g (ap : val -> val -> state -> sres) (e : expr) (s : state) : sres :=
   match e with
   | Val v => SVal v
   | Var x => SStuck ("unbound variable " ++ x)
   | Rec fb xb b => SPure (Val (RecV fb xb b))
   | App e1 e2 =>
-      match step1 e2 s with
+      match step1g ap e2 s with
       | SVal v2 =>
-          match step1 e1 s with
-          | SVal v1 => apply_step v1 v2 s
+          match step1g ap e1 s with
+          | SVal v1 => ap v1 v2 s
           | r => in_ctx (fun x => App x e2) r
           end
       | r => in_ctx (fun x => App e1 x) r
       end
   | UnOp op e1 =>
-      match step1 e1 s with
+      match step1g ap e1 s with
       | SVal v => match un_op_eval op v with Some r => SPure (Val r) | None => SStuck "unary operator" end
       | r => in_ctx (fun x => UnOp op x) r
       end
   | BinOp op e1 e2 =>
-      match step1 e2 s with
+      match step1g ap e2 s with
       | SVal v2 =>
-          match step1 e1 s with
+          match step1g ap e1 s with
           | SVal v1 => match bin_op_eval op v1 v2 with Some r => SPure (Val r) | None => SStuck "binary operator" end
           | r => in_ctx (fun x => BinOp op x e2) r
           end
       | r => in_ctx (fun x => BinOp op e1 x) r
       end
   | If e0 e1 e2 =>
-      match step1 e0 s with
+      match step1g ap e0 s with
       | SVal (LitV (LitBool true)) => SPure e1
       | SVal (LitV (LitBool false)) => SPure e2
       | SVal _ => SStuck "if: condition is not a boolean"
       | r => in_ctx (fun x => If x e1 e2) r
       end
   | Pair e1 e2 =>
-      match step1 e2 s with
+      match step1g ap e2 s with
       | SVal v2 =>
-          match step1 e1 s with
+          match step1g ap e1 s with
           | SVal v1 => SPure (Val (PairV v1 v2))
           | r => in_ctx (fun x => Pair x e2) r
           end
       | r => in_ctx (fun x => Pair e1 x) r
       end
   | Fst e1 =>
-      match step1 e1 s with
+      match step1g ap e1 s with
       | SVal (PairV a _) => SPure (Val a)
       | SVal _ => SStuck "Fst"
       | r => in_ctx Fst r
       end
   | Snd e1 =>
-      match step1 e1 s with
+      match step1g ap e1 s with
       | SVal (PairV _ b) => SPure (Val b)
       | SVal _ => SStuck "Snd"
       | r => in_ctx Snd r
       end
   | Fork e1 => SFork (Val (LitV LitUnit)) e1
   end.
+
+Definition step1 : expr -> state -> sres := step1g apply_step.
 
 (* ---------------------------------------------------------------- threads *)
 (* run the local steps of a thread up to its next visible step and perform it *)
